@@ -9,7 +9,7 @@ from fractions import Fraction as F
 
 import numpy as np
 
-from c20_util import (check_voronoi, color_ok, colorbar_clim, fr, frl, markers_data, poly_data, quadmesh_data,
+from c20_util import (check_voronoi, check_voronoi_poly, clip_polygon_coords, color_ok, colorbar_clim, fr, frl, markers_data, poly_data, quadmesh_data,
                       scatter_data)
 from common import CORPUS, err_code
 
@@ -196,6 +196,9 @@ def gen_cvt(rng, tier):
     opts = gen_common_opts(rng, objs, allow_transpose=(ndim == 2))
     opts["lines"] = rng.random() < 0.4      # plot_centroids
     opts["clip"] = ndim == 2 and rng.random() < 0.6
+    if ndim == 2 and rng.random() < 0.3:
+        # a user-supplied, hole-free, mostly non-convex clip polygon (cuts Voronoi regions into several pieces)
+        opts["clip"] = {"poly": rng.choice(["slot", "slot", "comb", "hslot", "ell", "tri"])}
     if ndim == 2:
         opts["cbar"] = rng.random() < 0.5   # the colour limits of the 2-D plot are only visible on the colour bar
     return {"kind": "cvt", "arch": {"type": "cvt", "ranges": ranges, "centroids": cents, "dtype": rng.choice(["float64", "float64", "float32"])},
@@ -417,7 +420,14 @@ def call_plot(case, archive, df, ax):
     if k == "grid":
         V.grid_archive_heatmap(archive, ax, transpose_measures=o["transpose"], **kw)
     elif k == "cvt":
-        V.cvt_archive_heatmap(archive, ax, transpose_measures=o["transpose"], clip=o["clip"], plot_centroids=o["lines"], **kw)
+        clip = o["clip"]
+        if isinstance(clip, dict):
+            import shapely
+            lb, ub = [float(v) for v in archive.lower_bounds], [float(v) for v in archive.upper_bounds]
+            if o["transpose"]:
+                lb, ub = lb[::-1], ub[::-1]
+            clip = shapely.Polygon(clip_polygon_coords(clip, ((lb[0], ub[0]), (lb[1], ub[1]))))
+        V.cvt_archive_heatmap(archive, ax, transpose_measures=o["transpose"], clip=clip, plot_centroids=o["lines"], **kw)
     elif k == "sliding":
         V.sliding_boundaries_archive_heatmap(archive, ax, transpose_measures=o["transpose"], boundary_lw=0.5 if o["lines"] else 0, **kw)
     elif k == "proximity":
@@ -595,11 +605,11 @@ def D(sig, what, impl=None, model=None):
     return {"sig": sig, "what": what, "impl": js(impl), "model": js(model)}
 
 
-def sample_points(case, box):
+def sample_points(case, box, n=8):
     rng = random.Random(json.dumps(case["arch"], sort_keys=True))
     (x0, x1), (y0, y1) = box
     pts = [(x0, y0), (x1, y0), (x0, y1), (x1, y1)]
-    for _ in range(8):
+    for _ in range(n):
         pts.append((x0 + (x1 - x0) * F(rng.randrange(1, 1000), 1000), y0 + (y1 - y0) * F(rng.randrange(1, 1000), 1000)))
     return pts
 
@@ -669,7 +679,10 @@ def compare(case, r, m):
         if not close_seq(obs["xlim"], m["xlim"], 0) or not close_seq(obs["ylim"], m["ylim"], 0):
             return D("axlim", "axis limits", [obs["xlim"], obs["ylim"]], [m["xlim"], m["ylim"]])
         box = (m["xlim"], m["ylim"])
-        msg = check_voronoi(m["sites"], m["t"], obs["polys"], obs["facecolors"], cmap, box, o["clip"], sample_points(case, box))
+        if isinstance(o["clip"], dict):
+            msg = check_voronoi_poly(m["sites"], m["t"], obs["polys"], obs["facecolors"], cmap, box, o["clip"], sample_points(case, box, 40))
+        else:
+            msg = check_voronoi(m["sites"], m["t"], obs["polys"], obs["facecolors"], cmap, box, o["clip"], sample_points(case, box))
         if msg:
             return D("voronoi", msg, None, {"sites": m["sites"], "t": m["t"], "obj": m["obj"]})
         if [(F(a), F(b)) for a, b in obs["markers"]] != m["markers"]:
@@ -808,7 +821,10 @@ def oracle(case, r):
             for i, ob in drawn.items():
                 t[i] = min(max((ob - lo) / (hi - lo), F(0)), F(1))
         box = ((lb[0], ub[0]), (lb[1], ub[1]))
-        msg = check_voronoi(sites, t, obs["polys"], obs["facecolors"], the_cmap(o["cmap"]), box, o["clip"], sample_points(case, box))
+        if isinstance(o["clip"], dict):
+            msg = check_voronoi_poly(sites, t, obs["polys"], obs["facecolors"], the_cmap(o["cmap"]), box, o["clip"], sample_points(case, box, 40))
+        else:
+            msg = check_voronoi(sites, t, obs["polys"], obs["facecolors"], the_cmap(o["cmap"]), box, o["clip"], sample_points(case, box))
         if msg:
             return msg
     elif k in ("sliding", "proximity"):
